@@ -36,6 +36,17 @@ type appCase struct {
 var c20TreePhase = PhaseCfg{P: map[string]int{"maxdepth": 3}}
 
 func genAppCase(t *Tape) *appCase {
+	if t.Draw(12) == 0 {
+		// an application whose help listing blows up: the command whose help is requested has a (hidden or visible)
+		// sub-command with an invalid spec, which the library only compiles when it lists the sub-commands
+		c := c14Invocation(t, genTree(t, TreeOpts{Depth: -1, MaxDepth: 2, Policy: 0, CB: c07Callbacks}), "help")
+		app := *c.Tree.App
+		app.Policy = policies[t.Draw(3)]
+		lvl := c.Tree.Path[c.Level]
+		lvl.Subs = append(lvl.Subs, &CmdDecl{Name: "broken", Desc: "invalid spec", Spec: []string{"[", "X", "-z", "(a"}[t.Draw(4)], Hidden: t.Draw(2) == 0,
+			Action: CB{Kind: CBReturn}, Tag: lvl.Tag + ".broken"})
+		return &appCase{Kind: "tree-help-with-broken-sub-command", App: &app, Argv: c.Argv, Stream: c.Stream, Desc: c.Describe()}
+	}
 	switch t.Weighted(3, 2, 2, 4, 2, 2) {
 	case 0:
 		c := c05Prop{}.Gen(t, &c20TreePhase).(*c05Case)
@@ -525,7 +536,13 @@ func c20FreshCheck(c *c20Case, stable []map[string]bool, st *Stats) *Violation {
 	}
 	seq := child(-1)
 	if len(seq) != len(c.Apps) {
-		return nil
+		// the sequence did not finish (or died): a verdict only if every application finishes when run alone
+		for i := range c.Apps {
+			if alone := child(i); len(alone) != 1 {
+				return nil
+			}
+		}
+		return &Violation{Clause: "history-independence", Detail: "every application finishes when run alone in a fresh OS process, but running them one after another in one fresh OS process does not finish (or dies)"}
 	}
 	st.Count("reach.fresh_process_order_history_check")
 	for i := range c.Apps {
@@ -608,7 +625,14 @@ func raceWorld(t *Tape) (mismatch string) {
 		}(i, a)
 	}
 	close(start)
-	wg.Wait()
+	finished := make(chan struct{})
+	go func() { wg.Wait(); close(finished) }()
+	select {
+	case <-finished:
+	case <-time.After(45 * time.Second):
+		// every application finished alone a moment ago: together they block one another
+		return "HANG: the applications did not all finish when run in parallel goroutines"
+	}
 	for i := range c.Apps {
 		stable := map[string]bool{}
 		cmp := comparableFields(r1[i], c.Apps[i].Stream)
